@@ -387,16 +387,24 @@ def check_props(prop, extra_targets=()):
     returns dict(ok, obligations, discharged, theorems, axioms, log)"""
     target = "Props/%s.vo" % prop
     src = os.path.join(COQ, "Props", "%s.v" % prop)
-    # force a re-check of the property file itself so that its Print Assumptions output is seen
-    vo = os.path.join(COQ, target)
-    if os.path.exists(vo): os.remove(vo)
-    # Proofs/<prop>SpecPinned.v (optional): further pinned statements of the property (the uniform "the executable spec
-    # holds of the model" theorems), required by Props/<prop>.v; re-checked and counted like the Props file itself
+    # 1. bring Props/<prop>.vo and everything it depends on up to date (full .vo build; nothing is deleted, so checks of
+    #    different properties can run side by side);
+    # 2. re-check the pinned statements themselves on every run with a private output file, which also yields their
+    #    Print Assumptions output: Props/<prop>.v and, if present, Proofs/<prop>SpecPinned.v (the uniform "the executable
+    #    spec holds of the model" theorems, required by the Props file).
     pinned = os.path.join(COQ, "Proofs", "%sSpecPinned.v" % prop)
-    if os.path.exists(pinned) and os.path.exists(pinned + "o"): os.remove(pinned + "o")
     ok, out = coq_make(list(extra_targets) + [target])
-    text = open(src).read() if os.path.exists(src) else ""
-    if os.path.exists(pinned): text += "\n" + open(pinned).read()
+    text = ""
+    outdir = os.path.join(BUILD, "props", "%s-%d" % (prop, os.getpid())); os.makedirs(outdir, exist_ok=True)
+    for f in ([pinned] if os.path.exists(pinned) else []) + [src]:
+        if not os.path.exists(f): ok = False; continue
+        text += "\n" + open(f).read()
+        if ok:
+            rc, o2 = sh(["timeout", "900", "coqc", "-q", "-w", "-notation-overridden,-deprecated-syntactic-definition,-deprecated-hint-rewrite-without-locality,-deprecated-instance-without-locality,-ambiguous-paths",
+                         "-Q", COQ, "PV", "-o", os.path.join(outdir, os.path.basename(f) + "o"), f])
+            out += "\n" + o2
+            if rc != 0: ok = False
+    shutil.rmtree(outdir, ignore_errors=True)
     theorems = re.findall(r"^\s*(?:Theorem|Lemma|Corollary|Example)\s+(\w+)", text, re.M)
     axioms = set()
     closed = 0
